@@ -9,7 +9,7 @@ from . import seams
 from .common import recv_msg, send_msg
 from .seams import S, OpTimeout, StepBudgetExceeded
 
-OP_WALL_S = 180
+OP_WALL_S = 600
 EPOCH_NAME_SCAN = 200_000
 
 EXECUTORS = {}
